@@ -174,7 +174,7 @@ FAULTS = ["unknown-key", "bad-key", "repeat-single", "repeat-wild",
           "not-admitted", "unnamed-in-plus", "wrong-fixed-name",
           "literal-star-name", "reuse-name", "second-in-single",
           "missing-required", "bad-value", "raw-junk", "name-is-key",
-          "reuse-name-across-slots"]
+          "reuse-name-across-slots", "fixed-name-wrong-type"]
 
 JUNK = ["<a b c>", "(x", "</zz>", "<", "<>", "%bogus x", "%define", "k $",
         "k ${x", "k $nope", "</", "<a", "%import", ")"]
@@ -317,6 +317,21 @@ def _fault_in(rng, res, node, cont, kind):
         else:
             items.insert(rng.randint(0, pos), ["s", dup])
         return src["name"]
+    if kind == "fixed-name-wrong-type":
+        # a section of a known concrete type that the fixed-name slot does
+        # not admit, carrying that slot's name; placed after a correct use
+        # when there is one (state kept on the schema would show)
+        fixed = [c for c in slots if c["name"] not in ("*", "+")]
+        if not fixed:
+            return None
+        c = rng.choice(fixed)
+        cand = [t for t in res.concrete_names() if not res.admits(c, t)]
+        if not cand:
+            return None
+        t = rng.choice(cand)
+        bad = mknode(t, c["name"], rng.choice(["pair", "empty"]))
+        items.append(["s", bad])
+        return t
     if kind == "second-in-single":
         cand = []
         for it in items:
